@@ -116,6 +116,15 @@ def main():
         good = [s for s in seqs if cgr_spec(s.encode('utf-8'), size) is not None][:50]
         cases += 1
         if [[tuple(p) for p in r] for r in cg.vectorise_batch(good)] != [cgr_spec(s.encode('utf-8'), size) for s in good]: fail(what='CgrComputer.vectorise_batch', size=size)
+        # a large batch of distinct sequences, several times: result i belongs to argument i whatever the pool does
+        big = [('ACGT' * (1 + i % 7)) + 'ACGT'[i % 4] * (i % 11) + 'GATC'[(i // 4) % 4] for i in range(3000)]
+        want_big = [cgr_spec(s.encode('utf-8'), size) for s in big]
+        for rep in range(3):
+            cases += 1
+            got_big = [[tuple(p) for p in r] for r in cg.vectorise_batch(big)]
+            if got_big != want_big:
+                bad = next(i for i in range(len(big)) if i >= len(got_big) or got_big[i] != want_big[i])
+                fail(what='CgrComputer.vectorise_batch order', size=size, batch=len(big), first_wrong_index=bad)
     # counts beyond 2^24 (where a single-precision accumulator stops counting): one sequence of 17 M bases
     if True:
         n = 17_000_000
